@@ -8,3 +8,11 @@ def regen_regex():
     txt, info = regex2coq.generate()
     regex2coq.write_if_changed(os.path.join(os.path.dirname(os.path.abspath(__file__)), "coq", "Gen", "RegexSrc.v"), txt)
     return info
+
+
+def regen_pyapi():
+    import pyapi2coq
+    here = os.path.dirname(os.path.abspath(__file__))
+    txt, info, _ = pyapi2coq.generate(os.path.join(here, "build", "target", "debug", "zerv"))
+    pyapi2coq.write_if_changed(os.path.join(here, "coq", "Gen", "PyApiGen.v"), txt)
+    return info
